@@ -1,6 +1,7 @@
 (** C04 — Raft store is crash-consistent at every file-write boundary (PARTIAL: index file and
-    append histories of one log file at full strength, the two composed for last_applied; delete-from
-    crash images, rollover across log files and snapshot files are not covered by a theorem).
+    append histories of one log file at full strength, the two composed for last_applied; the crash points
+    of a COMPACTION at the level of which snapshot / log suffix the restart reads; delete-from crash images
+    and rollover across log files are not covered by a theorem).
     Statements only; every proof is [exact <lemma>].
 
     [journal sh ops] is the sequence of file mutations (create, write at offset) that the index
@@ -92,3 +93,39 @@ Theorem C04_crash_safe_store : forall limit start pre split ops k,
             recovered s start (firstn j (appends ops)) /\
             (header_after P 0 = 0 \/ header_after P 0 < start + N.of_nat j).
 Proof. exact crash_safe_store. Qed.
+
+(** * a node killed DURING a compaction (SM/Replay.v [crash_restart]).  Three successive compaction points
+    k00 <= k0 <= k; the log is always cut one snapshot behind.  After the new snapshot file is complete and
+    the oldest one removed, the catalogue save (fire-and-forget to the index actor) and the log cut at k0
+    (log actor) reach the disk in either order: [catalogued], [cut] say which of them had.  For EVERY
+    history, all compaction points, all four combinations and whatever interrupted attempts left at the
+    snapshot paths, the node restarts to a state equivalent, on every component, to the one that ran the
+    history.  Component premises as in C01 (discharged there for config / sequence / table / namespace). *)
+From RN Require Import SM.Snapshot SM.Replay SM.ReplayProofs RaftLog.SnapFile.
+Local Open Scope nat_scope.
+
+Theorem C04_compaction_crash_points_harmless :
+  forall (S M : Type)
+         (capply : comp -> S -> M -> S) (csnap : comp -> S -> list record)
+         (cload : comp -> load_msg -> S -> record -> S) (cinit : comp -> S)
+         (ceq : comp -> S -> S -> Prop),
+    (forall c s1 s2 s3, ceq c s1 s2 -> ceq c s2 s3 -> ceq c s1 s3) ->
+    (forall c s1 s2 m, ceq c s1 s2 -> ceq c (capply c s1 m) (capply c s2 m)) ->
+    forall (cinv : comp -> S -> Prop) (mok : comp -> M -> Prop) (cok : comp -> S -> Prop),
+    (forall c s, cinv c s -> ceq c s s) ->
+    (forall c, cinv c (cinit c)) ->
+    (forall c s m, cinv c s -> mok c m -> cinv c (capply c s m)) ->
+    (forall c s r, cinv c s -> cok c s -> In r (csnap c s) -> routed_to c (rtree r) (rkey r)) ->
+    (forall c s, cinv c s -> cok c s -> ceq c (fold_left (cload_routed S cload c) (csnap c s) (cinit c)) s) ->
+    forall (enc : record -> list N) (dec_frame : list N -> option record)
+           (catalogued cut : bool) (hist : list (entry M)) (k00 k0 k : nat) (leftover0 hdr0 leftover hdr : list N),
+      k00 <= k0 -> k0 <= k -> k <= length hist -> Forall (entry_ok M mok) hist ->
+      (forall c, cok c (run S M capply (firstn k0 hist) (init_node S cinit) c)) ->
+      codec_ok enc dec_frame hdr0 (build_snapshot S csnap (run S M capply (firstn k0 hist) (init_node S cinit))) ->
+      (forall c, cok c (run S M capply (firstn k hist) (init_node S cinit) c)) ->
+      codec_ok enc dec_frame hdr (build_snapshot S csnap (run S M capply (firstn k hist) (init_node S cinit))) ->
+      exists nd,
+        crash_restart S M capply csnap cload cinit enc dec_frame write_truncate catalogued cut
+                      leftover0 hdr0 leftover hdr hist k00 k0 k = Ok nd /\
+        forall c, ceq c (nd c) (run S M capply hist (init_node S cinit) c).
+Proof. exact compaction_crash_points_harmless. Qed.
